@@ -991,7 +991,7 @@ def run(ctx) -> None:
     # every mutating op of every history had ALL of its N+1 crash points tried (none sampled)
     ctx.extra['crash_points_per_operation_exhaustive'] = True
     min_ops, max_ops = ctx.pick((3, 12), (6, 30))
-    for profile, quick, thorough in (('multi', 50, 2400), ('adoption', 25, 1200), ('general', 50, 2400)):
+    for profile, quick, thorough in (('multi', 50, 1920), ('adoption', 25, 960), ('general', 50, 1920)):
         ctx.hyp(
             profile,
             lambda c: run_history(ctx, c),
